@@ -181,6 +181,11 @@ impl LogReader {
         if pos + len > self.mmap.len() as u64 {
             self.mmap = memmap2::MmapOptions::new().map(&self.file)?;
         }
+        #[cfg(feature = "verif")]
+        crate::verif::point(
+            "reader.mapped",
+            &[("maplen", self.mmap.len() as u64), ("pos", pos), ("len", len)],
+        );
         let start = pos as usize;
         let end = start + len as usize;
         if end > self.mmap.len() {
